@@ -188,9 +188,9 @@ func (w *World) opConstruct() {
 		a := w.pickPoint("a")
 		desc = fmt.Sprintf("NewPointFrom(p%d)", a)
 		expectPanic = !w.init[a]
-		snap := rawOf(w.points[a])
+		was := *w.points[a]
 		po = protect(func() { p = secp256k1.NewPointFrom(w.points[a]) })
-		if rawOf(w.points[a]) != snap {
+		if w.operandChanged(&was, w.points[a]) {
 			w.r.Violate("C18", "operand-modified", "NewPointFrom", w.step, "%s modified its operand", desc)
 		}
 		if !po.panicked && !expectPanic {
